@@ -474,6 +474,10 @@ func VerifC13TAReconfigureAccepted() {
 	w := verifNewPolicy(machine, allowed, reserved, isolated, cfg)
 	for k := 0; k < verifParam("allocs", 2); k++ {
 		c := w.newContainer(int64(verifParam("maxMilli", 2000)))
+		if verifParam("memChoice", 1) != 0 {
+			// memory limits decide the order in which the fall-back re-allocates containers
+			c.memLimit = int64(verifChoice("mem", 3)) << 30
+		}
 		w.p.AllocateResources(c)
 	}
 	w.checkC01()
